@@ -64,7 +64,7 @@ deriving Repr, DecidableEq
 
 /-- `Banner.__str__` -/
 def render (b : Banner) : Str :=
-  "SSH-".toList ++ Text.natToStr b.protocol.1 ++ ['.'] ++ Text.natToStr b.protocol.2
+  ['S', 'S', 'H', '-'] ++ Text.natToStr b.protocol.1 ++ ['.'] ++ Text.natToStr b.protocol.2
     ++ (match b.software with | some s => '-' :: s | none => [])
     ++ (match b.comments with | some c => if c.isEmpty then [] else ' ' :: c | none => [])
 
